@@ -607,7 +607,6 @@ func init() {
 			if *c < 0 {
 				panic(runtimePanic{"sync: negative WaitGroup counter"})
 			}
-			fr.i.yieldPoint("wg.Add")
 			return nil
 		},
 		"(*sync.WaitGroup).Done": func(fr *frame, a []value) value {
@@ -616,7 +615,6 @@ func init() {
 			if *c < 0 {
 				panic(runtimePanic{"sync: negative WaitGroup counter"})
 			}
-			fr.i.yieldPoint("wg.Done")
 			return nil
 		},
 		"(*sync.WaitGroup).Wait": func(fr *frame, a []value) value {
